@@ -226,4 +226,18 @@ PLAN = {
         min_nontrivial=dict(quick=200, thorough=3000),
         runs=[dict(variant="", flavour="opt", quick=dict(cases=4000, size=100, shards=16, budget=40), thorough=dict(cases=120000, size=150, shards=16, budget=900))],
     ),
+    "C15": dict(
+        rule=("base LP with truth known by construction (optimal primal-dual witness, or infeasible by construction) and a random "
+              "composition of 2-6 transformations: row permutation, column permutation, positive row scaling, negative row scaling "
+              "with sense flip (ranges mirrored), variable substitution x = a x' + b (bounds, costs, rhs adjusted, objective constant "
+              "tracked), objective negation with MIN<->MAX, duplicated row, added redundant row (relaxed non-negative combination), "
+              "equality split into <= and >=. Both formulations are solved by QSexact_solver (random primal/dual start); statuses must "
+              "agree, optimal values must satisfy the tracked affine relation, and both must agree with the construction. Variant "
+              "'large': 200-400 rows x 200-600 columns sparse, so that the sparse initial-basis/crash code (>=200 rows), partial "
+              "pricing thresholds and refactorisation are active. Non-trivial = both definitive and >=2 different transformation kinds."),
+        technique="metamorphic PBT with construction witnesses",
+        min_nontrivial=dict(quick=300, thorough=3000),
+        runs=both("", dict(cases=6000, size=100, budget=35), dict(cases=150000, size=150, budget=600), 5, 5) +
+             [dict(variant="large", flavour="opt", quick=dict(cases=60, size=100, shards=6, budget=40), thorough=dict(cases=3000, size=100, shards=16, budget=900))],
+    ),
 }
